@@ -1084,6 +1084,20 @@ func (e *Enc) closureAtCreation(fr *Frame, x *ssa.MakeClosure, c *Term, st *Stat
 		}
 		e.assume(st.reach, tb.Eq(tv.t, vv.t))
 	}
+	// captured variables are read-only inside the literal (and the literals nested in it): this is what the encoding
+	// assumes ("captured variables keep the value they had when the literal was created") and what makes compiled code
+	// stateless across evaluations. Checked on the SSA of the literal itself, also for trusted literals.
+	{
+		bad := capturedWrites(fn, 0)
+		cond := tb.True()
+		txt := "no captured variable is assigned (or has its address taken) inside the literal"
+		if len(bad) > 0 {
+			cond = tb.False()
+			txt += "; offending: " + strings.Join(bad, ", ")
+		}
+		q := e.oblige("closure", label+".captures-read-only", st, cond, x.Pos(), e.inputVals()...)
+		q.Text = txt
+	}
 	for _, cl := range spec.when {
 		wenv := e.envAt(fr, st, nil)
 		for i, fv := range fn.FreeVars {
@@ -1516,4 +1530,142 @@ func (e *Enc) sortMentionsFn(t types.Type, depth int) bool {
 		}
 	}
 	return false
+}
+
+// capturedWrites lists the captured variables of a function literal that the literal (or a literal nested in it) may
+// assign: a free variable may only be loaded, have fields / elements of it loaded, or be captured again by a nested
+// literal (checked recursively); every other use (store, address passed on) counts as a write.
+func capturedWrites(fn *ssa.Function, depth int) []string {
+	var bad []string
+	if depth > 4 {
+		return bad
+	}
+	var readOnly func(v ssa.Value, d int) bool
+	readOnly = func(v ssa.Value, d int) bool {
+		refs := v.Referrers()
+		if refs == nil || d > 6 {
+			return true
+		}
+		for _, r := range *refs {
+			switch u := r.(type) {
+			case *ssa.UnOp:
+				if u.Op != token.MUL {
+					return false
+				}
+				// the loaded value: no store through it (elements of a captured slice, fields behind a captured pointer)
+				if !noStoreThrough(u, 0) {
+					return false
+				}
+			case *ssa.FieldAddr:
+				if u.X != v || !readOnly(u, d+1) {
+					return false
+				}
+			case *ssa.IndexAddr:
+				if u.X != v || !readOnly(u, d+1) {
+					return false
+				}
+			case *ssa.DebugRef:
+			case *ssa.MakeClosure:
+				// captured again by a nested literal: checked below through the nested literal's own free variable
+			default:
+				return false
+			}
+		}
+		return true
+	}
+	return capturedWritesOf(fn, nil, depth, readOnly)
+}
+
+// only: restrict the check to these free variables (nil: all). A nested literal is checked for the free variables that
+// it captures from the free variables of the enclosing literal; its other free variables are locals of one invocation
+// of the enclosing literal.
+func capturedWritesOf(fn *ssa.Function, only map[*ssa.FreeVar]bool, depth int, readOnly func(v ssa.Value, d int) bool) []string {
+	var bad []string
+	if depth > 4 {
+		return bad
+	}
+	for _, fv := range fn.FreeVars {
+		if only != nil && !only[fv] {
+			continue
+		}
+		if _, isPtr := fv.Type().Underlying().(*types.Pointer); !isPtr {
+			continue // captured by value (bound method receivers): cannot be assigned
+		}
+		if !readOnly(fv, 0) {
+			bad = append(bad, fv.Name())
+		}
+	}
+	for _, b := range fn.Blocks {
+		for _, in := range b.Instrs {
+			mc, ok := in.(*ssa.MakeClosure)
+			if !ok {
+				continue
+			}
+			inner := mc.Fn.(*ssa.Function)
+			sub := map[*ssa.FreeVar]bool{}
+			for i, bv := range mc.Bindings {
+				if pfv, isFV := bv.(*ssa.FreeVar); isFV && i < len(inner.FreeVars) && (only == nil || only[pfv]) {
+					sub[inner.FreeVars[i]] = true
+				}
+			}
+			for _, w := range capturedWritesOf(inner, sub, depth+1, readOnly) {
+				bad = append(bad, w+" (in a nested literal)")
+			}
+		}
+	}
+	return bad
+}
+
+// noStoreThrough: the value (loaded from a captured variable) is not used as the base of a store: no element of a
+// captured slice and no field behind a captured pointer is assigned by the literal itself.
+func noStoreThrough(v ssa.Value, d int) bool {
+	refs := v.Referrers()
+	if refs == nil || d > 4 {
+		return true
+	}
+	for _, r := range *refs {
+		switch u := r.(type) {
+		case *ssa.IndexAddr:
+			if u.X == v && !addrNotStored(u, d+1) {
+				return false
+			}
+		case *ssa.FieldAddr:
+			if u.X == v && !addrNotStored(u, d+1) {
+				return false
+			}
+		case *ssa.Slice:
+			if u.X == v && !noStoreThrough(u, d+1) {
+				return false
+			}
+		case *ssa.Store:
+			if u.Addr == v {
+				return false
+			}
+		}
+	}
+	return true
+}
+
+func addrNotStored(a ssa.Value, d int) bool {
+	refs := a.Referrers()
+	if refs == nil || d > 6 {
+		return true
+	}
+	for _, r := range *refs {
+		switch u := r.(type) {
+		case *ssa.Store:
+			if u.Addr == a {
+				return false
+			}
+		case *ssa.IndexAddr:
+			if u.X == a && !addrNotStored(u, d+1) {
+				return false
+			}
+		case *ssa.FieldAddr:
+			if u.X == a && !addrNotStored(u, d+1) {
+				return false
+			}
+		}
+	}
+	return true
 }
